@@ -101,6 +101,7 @@ fn main() {
         "C01" => protochecks::c01(tier),
         "C02" => protochecks::c02(tier),
         "C03" => protochecks::c03(tier),
+        "C04n3" => { let mut rep = util::Report::new("DEV", tier, "model_checking"); c04::run_node(&mut rep, tier, &[1, 1, 1, 1], 3, 3, 3, false); println!("violations: {}", rep.violations.len()); 0 }
         "C04" => c04::c04(tier),
         "C05" => protochecks::c05(tier),
         "C09" => protochecks::c09(tier),
